@@ -85,6 +85,8 @@ let events_of_obs (s : string) : event list * int =
       | ["N"; k] -> reads := int_of_string k; None
       | ["E"; "ok"] -> Some (End EndClosed)
       | ["E"; _] -> Some (End EndReadErr)
+      | ["PANIC"] -> failwith "the implementation panicked (PANIC in its observation)"
+      | ["BACKEND-NOT-CLOSED"] -> failwith "a backend connection was still open after the tunnel ended (a second connection was made or the first was not released)"
       | _ -> failwith ("bad event token " ^ t)) toks in
   (* bytes seen by the backend are not ordered against the responses by the
      observation; they are placed right after the channel-create success (the
@@ -267,14 +269,19 @@ let handle (fields : string list) : string * string =
     let t = { t_target = bytes_of_hex tokhost; t_remote = bytes_of_hex tokip; t_user = bytes_of_hex user } in
     let pol = Model.wired_policy tok verify (bytes_of_hex mode) (lst hosts) t (bytes_of_hex cip) in
     let items = Model.resolve_policy_dials pol (lst live) cfg Model.tstate0 (parse_items items) in
-    let m = obs_of_events (Model.run cfg items) (int_of_nat (Model.consumed cfg items)) in
+    let mevs = Model.run cfg items in
+    let m = obs_of_events mevs (int_of_nat (Model.consumed cfg items)) in
     let (ievs, _) = events_of_obs impl in
     let spec h = Model.allowed_b tok verify (bytes_of_hex mode) (lst hosts) t (bytes_of_hex cip) h in
+    (* the addresses the client requested, decoded by the reference decoder from the packets it sent *)
+    let requested = List.concat_map (fun e -> match e with AskHost (h, _) -> [h] | Dial (h, _) -> [h] | _ -> []) mevs in
     let verdict =
       match Model.first_reject cfg.c_cookie_cb cfg.c_host_cb Model.mon0 ievs O with
       | Some i -> Printf.sprintf "fail:monitor-rejects-event-%d" (int_of_nat i)
       | None ->
-        if List.exists (fun e -> match e with AskHost (h, ok) -> ok <> spec h | _ -> false) ievs
+        if List.exists (fun e -> match e with Dial (h, _) -> not (List.mem h requested) | _ -> false) ievs
+        then "fail:connected-to-a-host-other-than-the-requested-one"
+        else if List.exists (fun e -> match e with AskHost (h, ok) -> ok <> spec h | _ -> false) ievs
         then "fail:policy-decision-differs-from-specification"
         else if List.exists (fun e -> match e with Dial (h, _) -> not (spec h) | _ -> false) ievs
         then "fail:connected-to-forbidden-host"
@@ -551,6 +558,28 @@ let handle (fields : string list) : string * string =
           else if field "Z=" impl <> Some "Z=0" then "fail:answered-after-end"
           else "fail:tunnel-differs-from-solo-run"
         end)
+  | "wiring" :: tok :: allowed :: user :: items :: impl :: [] ->
+    (* the real binary, callbacks wired by main(): token authentication installs the cookie check and the
+       session check around the host check; the host list holds one address; no cookie here is a minted one *)
+    let tok = bool_of tok in
+    let allowed_h = bytes_of_hex allowed in
+    let cfg = Model.wired tok false (parse_redir "0000000") Z0 in
+    let t = { t_target = []; t_remote = []; t_user = bytes_of_hex user } in
+    let mode = bytes_of_hex "726f756e64726f62696e" in
+    let pol = Model.wired_policy tok true mode [allowed_h] t [] in
+    let items = Model.resolve_policy_dials pol [allowed_h] cfg Model.tstate0 (parse_items items @ [RErr]) in
+    let evs = Model.run cfg items in
+    let rs = List.filter_map (function Resp (ty, st, _) -> Some (Printf.sprintf "%d:%d" (int_of_n ty) (int_of_n st)) | _ -> None) evs in
+    let dials = List.length (List.filter (function Dial (h, true) -> h = allowed_h | _ -> false) evs) in
+    let others = List.length (List.filter (function Dial (h, true) -> h <> allowed_h | _ -> false) evs) in
+    let consumed = int_of_nat (Model.consumed cfg items) in
+    let closed = consumed < List.length items in
+    let j l = match l with [] -> "-" | _ -> String.concat "," l in
+    let m = Printf.sprintf "R=%s D=%d O=%d X=%s" (j rs) dials others (b01 closed) in
+    let field k s = List.find_opt (fun t -> String.length t > String.length k && String.sub t 0 (String.length k) = k) (split_on ' ' s) in
+    (m, if m = impl then "ok"
+        else if field "D=" impl <> field "D=" m || field "O=" impl <> Some "O=0" then "fail:backend-connection-the-specification-forbids"
+        else "fail:tunnel-differs-from-wired-model")
   | "pairing" :: same :: impl :: [] ->
     let c = parse_cfg "10101" "0000000" "0" in
     let one = n_of_int 1 and two = n_of_int 2 in
@@ -652,7 +681,11 @@ let () =
        if line <> "" then begin
          match split_on '\t' line with
          | id :: rest ->
-           let (m, v) = (try handle rest with Failure e -> ("DRIVER-ERROR:" ^ e, "fail:driver-error")) in
+           let (m, v) = (try handle rest with Failure e ->
+               let v = if String.length e > 4 && String.sub e 0 4 = "the " then "fail:implementation-panicked"
+                 else if String.length e > 2 && String.sub e 0 2 = "a " then "fail:backend-connection-left-open"
+                 else "fail:driver-error" in
+               ("DRIVER-ERROR:" ^ e, v)) in
            print_string id; print_char '\t'; print_string m; print_char '\t'; print_string v; print_newline ()
          | [] -> ()
        end
